@@ -224,6 +224,7 @@ class TypesGen:
         self.records = []
         self.derived = []     # (A, op, B, R)
         self.conv_tables = []
+        self.amnt_consts = {}     # name -> exact value of module-level `const NAME: AmountT = <literal>`
         self.modules = modules
         self.crate_root = crate_root
 
@@ -361,6 +362,15 @@ class TypesGen:
             if 'ConversionTable' in h:
                 self.conv_tables.append(c)
                 return
+            m = re.match(r'(?:pub (?:\( \w+ \) )?)?const (\w+) : AmountT = ', h)
+            if m:
+                # a named amount constant (helper of a table): remembered by value, referenced through `amnt_consts`
+                eq = next(k for k in range(c.first, c.last) if c.toks[k].text == '=')
+                found = find_literals(c.toks, eq + 1, c.last)
+                if len(found) == 1:
+                    neg = c.toks[eq + 1].text == '-'
+                    self.amnt_consts[m.group(1)] = -found[0][2] if neg else found[0][2]
+                    return
             raise LostAnchor(f'unexpected const in module {mod}: {h[:80]}')
         if c.kw in ('mod', 'macro_rules', 'type', 'trait', 'fn', 'extern', '?', 'static', 'union'):
             if self.crate_root:
@@ -931,6 +941,10 @@ def c14_text(tg, cfg_kind, unit_name):
             o = find_literals(parts[3], 0, len(parts[3]))
 
             def lit(p, found):
+                names = [t.text for t in p if t.kind == 'ident']
+                if not found and len(names) == 1 and names[0] in tg.amnt_consts:
+                    v = tg.amnt_consts[names[0]]
+                    return -v if p[0].text == '-' else v
                 if len(found) != 1:
                     raise LostAnchor('TEMPERATURE_CONVERTER: factor/offset is not a single literal')
                 fr = found[0][2]
